@@ -32,14 +32,15 @@ LIB_SOURCES = [
     "src/place_global/transportation.cpp", "src/place_global/transportation_1d.cpp",
 ]
 
-FLOAT_SAN = ",float-cast-overflow,float-divide-by-zero"
+# float-divide-by-zero is NOT added: it does not stay quiet on the unchanged tree (1.0f / 0.0f at
+# density_grid.cpp:313 `invTotalDemand` of a bin without demand; IEEE inf, result unused): reported to the lead
+FLOAT_SAN = ",float-cast-overflow"
 VARIANTS = {
     # assertions ON: the README's default CMake configuration
     "plain": ["-O1"],
     "ndebug": ["-O1", "-DNDEBUG"],
     # g++'s -fsanitize=undefined does NOT include float-cast-overflow (float -> int conversions out of
-    # range: std::round(...) -> long long / int, (int)(factor * height)) nor float-divide-by-zero:
-    # both are named explicitly (review C07-3)
+    # range: std::round(...) -> long long / int, (int)(factor * height)): named explicitly (review C07-3)
     "asan": ["-O1", "-g", "-fno-omit-frame-pointer",
              "-fsanitize=address,undefined" + FLOAT_SAN, "-fno-sanitize-recover=all"],
     "asan-ndebug": ["-O1", "-g", "-fno-omit-frame-pointer", "-DNDEBUG",
@@ -52,7 +53,7 @@ VARIANTS = {
 }
 # part of the library cache key: bump the tag of a variant whenever its flags change (the key is
 # otherwise only the hash of /repo's sources + the variant name, and a stale library would be reused)
-FLAGS_REV = {"asan": "f2", "asan-ndebug": "f2", "asan-nosio": "f2"}
+FLAGS_REV = {"asan": "f3", "asan-ndebug": "f3", "asan-nosio": "f3"}
 BASEFLAGS = ["-std=gnu++17", "-I" + os.path.join(REPO, "src"), "-I/usr/include/eigen3",
              "-D" + GUARD, "-pthread", "-w"]
 
@@ -554,6 +555,29 @@ TRUSTED_BASE = [
 
 
 # ---------------------------------------------------------------- generic differential runner
+
+
+def proof_status_all(ctx, prop, extras=()):
+    """proof_status of Properties_<prop>.v merged with further property files (Properties_<e>.v for e in extras):
+    every file must build, be free of forbidden vernacular and have all its theorems closed"""
+    ok, proof = proof_status(ctx, prop)
+    for e in extras:
+        e_ok, e_proof = proof_status(ctx, e)
+        ok = ok and e_ok
+        for k in ("obligations", "discharged"):
+            proof[k] = proof.get(k, 0) + e_proof.get(k, 0)
+        for k in ("theorems", "axioms_used", "forbidden_vernacular_hits", "coq_files_in_scope", "problems"):
+            if e_proof.get(k):
+                if k == "theorems":
+                    proof[k] = list(proof.get(k, [])) + [t for t in e_proof[k] if t not in proof.get(k, [])]
+                else:
+                    proof[k] = sorted(set(list(proof.get(k, [])) + list(e_proof[k])))
+        proof.setdefault("property_files", ["Properties_%s.v" % prop]).append("Properties_%s.v" % e)
+        if "coqchk" in e_proof:
+            proof["coqchk_" + e] = e_proof["coqchk"]
+        if not e_ok and "coq_log_tail" in e_proof:
+            proof["coq_log_tail_" + e] = e_proof["coq_log_tail"]
+    return ok, proof
 
 def _summarise_death(rc, err):
     m = re.search(r"(ERROR: AddressSanitizer: [^\n]*|runtime error: [^\n]*|WARNING: ThreadSanitizer: [^\n]*|Assertion [^\n]*failed[^\n]*)", err)
